@@ -48,6 +48,7 @@ template <typename T, uint64_t N, uint64_t D, bool WithIn>
 struct Inst {
     i128 lo, hi, mod;
     long long swept = 0, mismatches = 0, nontrivial = 0, logged = 0;
+    int ubchk = 0;
     Opts o;
     Rng rng;
     Inst(const char *lo_, const char *hi_, const char *mod_, const Opts &o_)
@@ -57,18 +58,21 @@ struct Inst {
     void log(const char *why, T x, bool ov, bool tr, bool lo_, bool hasres, T res, int ub, bool hasin, T inres, T asres, bool covf, bool ctrunc) {
         ++logged;
         std::printf("{\"k\":\"conv\",\"why\":\"%s\",\"T\":\"%s\",\"N\":%s,\"D\":%s,\"x\":%s,\"ovf\":%d,\"trunc\":%d,\"lossy\":%d,"
-                    "\"hasres\":%d,\"res\":%s,\"ub\":%d,\"hasin\":%d,\"inres\":%s,\"asres\":%s,\"covf\":%d,\"ctrunc\":%d}\n",
+                    "\"hasres\":%d,\"res\":%s,\"ub\":%d,\"hasin\":%d,\"inres\":%s,\"asres\":%s,\"covf\":%d,\"ctrunc\":%d,\"ubchk\":%d}\n",
                     why, rep_name<T>(), wire_u((u128)N, false).c_str(), wire_u((u128)D, false).c_str(), wire((i128)x).c_str(),
                     (int)ov, (int)tr, (int)lo_, (int)hasres, wire((i128)res).c_str(), ub, (int)hasin, wire((i128)inres).c_str(), wire((i128)asres).c_str(),
-                    (int)covf, (int)ctrunc);
+                    (int)covf, (int)ctrunc, ubchk);
     }
 
     void one(T x, bool boundary) {
         ++swept;
+        AUV_INFLIGHT("same-rep conversion/checkers T=%s N=%s D=%s x=%s", rep_name<T>(), dec((i128)(u128)N).c_str(), dec((i128)(u128)D).c_str(), dec((i128)x).c_str());
         auto q = make_quantity<ScaledMeters<N, D>>(x);
+        au_verif_ub_flag = 0;
         bool ov = will_conversion_overflow(q, meters);
         bool tr = will_conversion_truncate(q, meters);
         bool lossy = is_conversion_lossy(q, meters);
+        ubchk = au_verif_ub_flag;
         T res = 0, inres = 0, asres = 0;
         int ub = 0;
         bool hasres = !lossy, hasin = false;
